@@ -23,7 +23,7 @@ import (
 
 // rangeProblem checks one range against the file it names. Returns "" if fine.
 func rangeProblem(w *world.World, path string, r hcl.Range) string {
-	files, ok := w.Texts[path]
+	files, ok := w.TextsByDir(path)
 	if !ok {
 		return "path-unknown"
 	}
